@@ -85,6 +85,11 @@ macro_rules! typed {
 
 /// All decode attempts on one byte string.
 pub fn attempt(fmt: &str, sig: &str, bytes: &[u8], pos: usize, le: bool, nfds: usize) -> Vec<J> {
+    attempt_sel(fmt, sig, bytes, pos, le, nfds, false)
+}
+
+/// `dynamic_only`: only the two dynamic targets (the value for the signature), not the typed ones.
+pub fn attempt_sel(fmt: &str, sig: &str, bytes: &[u8], pos: usize, le: bool, nfds: usize, dynamic_only: bool) -> Vec<J> {
     let mut out = vec![];
     let c = match fctx(fmt, le, pos) {
         Some(c) => c,
@@ -123,6 +128,9 @@ pub fn attempt(fmt: &str, sig: &str, bytes: &[u8], pos: usize, le: bool, nfds: u
             }))
         });
         out.push(json!({"target":"Value","outcome": match r { Ok(s) => s, Err(_) => "panic" }, "msg": r.err().unwrap_or_default(), "alloc_peak": peak}));
+    }
+    if dynamic_only {
+        return out;
     }
     // (b) typed targets
     typed!(out, data, c,
@@ -197,6 +205,30 @@ pub fn cmd_fuzz_work(args: &[String]) {
                 let e = worst.entry(t).or_insert((oc.clone(), peak, b.len()));
                 if peak > e.1 {
                     *e = (oc, peak, b.len());
+                }
+            }
+        }
+        // GVariant framing sweep: a container's layout is given by offsets stored in the data itself, so for short
+        // container encodings every byte is set to every small value (every possible offset into the data and just
+        // past it), decoded as the value of the entry's own signature
+        let container = sig.starts_with('a') || sig.starts_with('(') || sig.starts_with('m') || sig == "v";
+        if fmt == "gvariant" && container && base.len() >= 2 && base.len() <= 24 {
+            for p in 0..base.len() {
+                for v in 0..=(base.len() as u8 + 1) {
+                    if base[p] == v {
+                        continue;
+                    }
+                    let mut b = base.clone();
+                    b[p] = v;
+                    for o in attempt_sel(fmt, &sig, &b, pos, le, nfds, true) {
+                        calls += 1;
+                        let oc = o["outcome"].as_str().unwrap().to_string();
+                        let peak = o["alloc_peak"].as_u64().unwrap() as usize;
+                        let bound = 2097152 + 256 * (b.len() + sig.len());
+                        if (oc == "panic" || peak > bound) && bad.len() < 3 {
+                            bad.push(json!({"target":o["target"],"outcome":oc,"msg":o["msg"],"alloc_peak":peak,"bytes":jbytes(&b),"pos":pos,"le":le,"sig":sig,"siglen":sig.len(),"fmt":fmt,"nfds":nfds}));
+                        }
+                    }
                 }
             }
         }
